@@ -404,6 +404,19 @@ Proof.
   destruct (non_ascii s); [destruct (case_ok s)|]; try discriminate. reflexivity.
 Qed.
 
+Lemma plain_key a : plain a -> cmp_modelled a = true -> exists k, key_of a = Ok k.
+Proof.
+  intros (Hs & _ & Hb) Hm. apply key_of_defined; auto. apply not_blank_not_none. exact Hb.
+Qed.
+Lemma le_total_modelled a b : plain a -> plain b -> cmp_modelled a = true -> cmp_modelled b = true ->
+  fixup a LtE b = Ok (VBool true) \/ fixup b LtE a = Ok (VBool true).
+Proof.
+  intros Ha Hb Ma Mb. destruct (plain_key a Ha Ma) as (ka & Ea). destruct (plain_key b Hb Mb) as (kb & Eb).
+  eapply le_total; eauto.
+Qed.
+Lemma eq_refl_modelled a : plain a -> cmp_modelled a = true -> fixup a Eq a = Ok (VBool true).
+Proof. intros Ha Ma. destruct (plain_key a Ha Ma) as (k & E). eapply eq_refl_plain; eauto. Qed.
+
 (* ------------------------------------------------------------ examples *)
 (* 3 <= 3.5 <= "apple" <= "Banana" <= TRUE: the hypotheses are satisfiable
    across number kinds, classes and letter case *)
